@@ -131,7 +131,7 @@ fn c02_utf8_rejects_37_bits() {
 // CRC implementations (table driven, slice-by-16) against the bitwise RFC polynomials
 // ================================================================================================
 
-//@ unit props=C02,C16 tier=quick kind=bounded timeout=600 funcs="HEADER_CRC (crc::Crc<u8, Table<16>>::checksum)" bound="messages of 0..=17 bytes (slice-by-16 step + per-byte tail), every byte value"
+//@ unit props=C02,C16 tier=thorough kind=bounded timeout=600 funcs="HEADER_CRC (crc::Crc<u8, Table<16>>::checksum)" bound="messages of 0..=17 bytes (slice-by-16 step + per-byte tail), every byte value"
 #[kani::proof]
 #[kani::unwind(19)]
 fn c02_crc8_matches_rfc() {
@@ -143,7 +143,7 @@ fn c02_crc8_matches_rfc() {
     kani::cover!(n == 0);
 }
 
-//@ unit props=C02,C16 tier=quick kind=bounded timeout=600 funcs="FRAME_CRC (crc::Crc<u16, Table<16>>::checksum)" bound="messages of 0..=17 bytes (slice-by-16 step + per-byte tail), every byte value"
+//@ unit props=C02,C16 tier=thorough kind=bounded timeout=600 funcs="FRAME_CRC (crc::Crc<u16, Table<16>>::checksum)" bound="messages of 0..=17 bytes (slice-by-16 step + per-byte tail), every byte value"
 #[kani::proof]
 #[kani::unwind(19)]
 fn c02_crc16_matches_rfc() {
